@@ -30,7 +30,7 @@ ASSUMPTIONS = [
     "stops after one (thorough: two) temperature steps",
     "the C kernel's random stream is selected by a 32-bit seed and cannot be "
     "branched: seeds are a finite alphabet (8 values)",
-    "wall-clock watchdog of 60 s per placer call (normal cost < 50 ms)",
+    "wall-clock watchdog of 20 s per placer call (normal cost < 50 ms)",
 ]
 
 PLACERS = ["sequential", "breadth_first", "hilbert", "hilbert_nobf", "rcm",
@@ -118,8 +118,14 @@ class _TooManyHangs(Exception):
     pass
 
 
-# calls that ran into the watchdog in this shard: every one costs 60 s of
-# wall clock, so a shard is abandoned (and says so) after the third
+# wall-clock limit of one placer call (the slowest legitimate call in scope
+# takes well under a second)
+WATCHDOG_S = 20
+
+
+# calls that ran into the watchdog in this shard: every one costs WATCHDOG_S
+# seconds of wall clock, so a shard is abandoned (and says so) after the
+# second
 _hangs = [0]
 
 
@@ -269,7 +275,7 @@ def run_case(case, acc, tier, bound):
         acc.evaluations += 1
         c = dict(case, choices=None)
         signal.signal(signal.SIGALRM, _alarm)
-        signal.alarm(60)
+        signal.alarm(WATCHDOG_S)
         try:
             try:
                 pl = call_placer(case["placer"], vr, nets, machine, cons,
@@ -285,7 +291,7 @@ def run_case(case, acc, tier, bound):
                           dict(case, choices=list(ch.choices)),
                           "placer %s did not terminate within its budget"
                           % case["placer"], size=csize(case))
-            if _hangs[0] >= 3:
+            if _hangs[0] >= 2:
                 raise _TooManyHangs()
             return
         except Exception as e:
@@ -608,7 +614,7 @@ def run_shard(params, tier, acc):
     try:
         globals()["fam_" + params["fam"]](params, tier, acc)
     except _TooManyHangs:
-        acc.cap("shard %r abandoned after three placer calls that did not "
+        acc.cap("shard %r abandoned after two placer calls that did not "
                 "terminate" % (params,))
 
 
@@ -623,8 +629,11 @@ def replay(case, acc):
         run(Chooser(choices, budget=budget))
         return 1
     g["explore"] = only
+    _hangs[0] = 0
     try:
         run_case(case, acc, "quick", 0)
+    except _TooManyHangs:
+        pass
     finally:
         g["explore"] = saved
 
